@@ -2,6 +2,12 @@ package checks
 
 import (
 	"fmt"
+	"hash/adler32"
+	"hash/crc32"
+	"hash/fnv"
+	"net/http"
+	"net/http/httptest"
+	"net/url"
 	"sort"
 	"strings"
 
@@ -477,7 +483,130 @@ func c07Long(c c07Case, st *fw.Stats) []fw.Viol {
 		}
 	}
 	st.Max("max_path_bytes", int64(c.Long+19))
+	if c.Long == 10 {
+		c07Special(st, add)
+	}
 	return viols
+}
+
+// c07Special: (a) UseEncodedPath with the route cache on: a plain URL, then a percent-encoded URL whose DECODED form is
+// the plain one (and the other way round); (b) unmatched long requests next to cached long ones; (c) pairs of keys that
+// collide under the common 32-bit string hashes, requested A, B, A, B.
+func c07Special(st *fw.Stats, add func(sig, msg string)) {
+	run := func(what string, defs []refmodel.RouteDef, opts func(bool) []func(*rux.Router), reqs [][3]string) {
+		recC, recT := &hitRec{}, &hitRec{}
+		rc, pv1 := buildRouter(defs, recC, opts(true)...)
+		rt, pv2 := buildRouter(defs, recT, opts(false)...)
+		if pv1 != nil || pv2 != nil {
+			add("register:panic", fmt.Sprintf("%s: registration panicked: %v %v", what, pv1, pv2))
+			return
+		}
+		obs := func(r *rux.Router, rec *hitRec, q [3]string) string {
+			rec.n, rec.idx, rec.params = 0, -1, ""
+			w := httptest.NewRecorder()
+			u := &url.URL{Path: q[1]}
+			if q[2] != "" {
+				u = &url.URL{Path: q[1], RawPath: q[2]}
+			}
+			pv := try(func() {
+				r.ServeHTTP(w, &http.Request{Method: q[0], URL: u, Header: http.Header{}, Proto: "HTTP/1.1", ProtoMajor: 1, ProtoMinor: 1, Host: "x"})
+			})
+			return fmt.Sprintf("status=%d allow=%q body=%q handler=%d x%d panic=%v", w.Code, w.Header().Get("Allow"), w.Body.String(), rec.idx, rec.n, pv)
+		}
+		for i, q := range reqs {
+			st.Evals++
+			st.Nontrivial++
+			if got, want := obs(rc, recC, q), obs(rt, recT, q); got != want {
+				shown := q[1]
+				if len(shown) > 40 {
+					shown = shown[:16] + "…" + shown[len(shown)-16:]
+				}
+				add("transparency:special", fmt.Sprintf("%s, request #%d %s %s (raw %q, %d bytes): caching router observes %s; without caching %s", what, i+1, q[0], shown, q[2], len(q[1]), got, want))
+				return
+			}
+		}
+	}
+	// (a)
+	encDefs := []refmodel.RouteDef{{Path: "/f/{n}", Methods: []string{"GET"}}, {Path: "/f/{d}/{n}", Methods: []string{"GET"}}, {Path: "/u/{id}", Methods: []string{"GET"}}}
+	encOpts := func(caching bool) []func(*rux.Router) {
+		o := []func(*rux.Router){rux.UseEncodedPath}
+		if caching {
+			o = append(o, rux.CachingWithNum(8))
+		}
+		return o
+	}
+	plain, enc := [3]string{"GET", "/f/a/b", ""}, [3]string{"GET", "/f/a/b", "/f/a%2Fb"}
+	uA, uEnc := [3]string{"GET", "/u/A", ""}, [3]string{"GET", "/u/A", "/u/%41"}
+	for _, seq := range [][][3]string{{plain, enc, plain, enc}, {enc, plain, enc}, {uA, uEnc, uA}, {uEnc, uA, uEnc}} {
+		run("UseEncodedPath, routes /f/{n}, /f/{d}/{n}, /u/{id}", encDefs, encOpts, seq)
+	}
+	// (b)
+	longDefs := []refmodel.RouteDef{{Path: "/p/{x}", Methods: []string{"GET"}}, {Path: "/p/{x}/publish", Methods: []string{"POST"}}, {Path: "/q/{x}/{y}", Methods: []string{"GET"}}}
+	naOpts := func(caching bool) []func(*rux.Router) {
+		o := []func(*rux.Router){rux.HandleMethodNotAllowed}
+		if caching {
+			o = append(o, rux.CachingWithNum(8))
+		}
+		return o
+	}
+	for L := 230; L <= 290; L += 3 {
+		stem := "/p/" + strings.Repeat("a", L)
+		run("HandleMethodNotAllowed, routes GET /p/{x}, POST /p/{x}/publish, GET /q/{x}/{y}", longDefs, naOpts, [][3]string{
+			{"GET", stem, ""}, {"GET", stem + "/publish", ""}, {"DELETE", stem, ""}, {"POST", stem + "/publish", ""}, {"GET", stem + "x", ""}, {"GET", "/q/" + strings.Repeat("b", L) + "/1", ""}, {"GET", "/q/" + strings.Repeat("b", L) + "/2", ""}, {"HEAD", stem + "/publish", ""}})
+	}
+	// (c)
+	colDefs := []refmodel.RouteDef{{Path: "/p/{x}", Methods: []string{"GET"}}}
+	plainOpts := func(caching bool) []func(*rux.Router) {
+		if caching {
+			return []func(*rux.Router){rux.CachingWithNum(8)}
+		}
+		return nil
+	}
+	for name, pair := range c07Collisions() {
+		a, b := "/p/"+pair[0], "/p/"+pair[1]
+		run("keys that collide under "+name, colDefs, plainOpts, [][3]string{{"GET", a, ""}, {"GET", b, ""}, {"GET", a, ""}, {"GET", b, ""}})
+	}
+}
+
+// c07Collisions: per common 32-bit string hash two values v1 != v2 such that "GET/p/<v1>" and "GET/p/<v2>" (the cache
+// keys of GET /p/<v>) have the same hash. The pairs were found by a birthday search and are re-verified here; a pair
+// that does not collide (any more) is dropped.
+func c07Collisions() map[string][2]string {
+	hashes := map[string]func(string) uint32{
+		"FNV-1a (32 bit)": func(s string) uint32 { h := fnv.New32a(); h.Write([]byte(s)); return h.Sum32() },
+		"FNV-1 (32 bit)":  func(s string) uint32 { h := fnv.New32(); h.Write([]byte(s)); return h.Sum32() },
+		"CRC-32 (IEEE)":   func(s string) uint32 { return crc32.ChecksumIEEE([]byte(s)) },
+		"Adler-32":        func(s string) uint32 { return adler32.Checksum([]byte(s)) },
+		"Java/BKDR 31": func(s string) uint32 {
+			var h uint32
+			for i := 0; i < len(s); i++ {
+				h = h*31 + uint32(s[i])
+			}
+			return h
+		},
+		"djb2": func(s string) uint32 {
+			h := uint32(5381)
+			for i := 0; i < len(s); i++ {
+				h = h*33 + uint32(s[i])
+			}
+			return h
+		},
+	}
+	pairs := map[string][2]string{
+		"FNV-1a (32 bit)": {"1562789", "1779192"},
+		"FNV-1 (32 bit)":  {"968489", "1108800"},
+		"Adler-32":        {"120", "201"},
+		"CRC-32 (IEEE)":   {"cxqw5is", "g30cz6f"},
+		"Java/BKDR 31":    {"zo7y90k", "1zlchxm"},
+		"djb2":            {"4l6uyr", "ubtnmdl"},
+	}
+	out := map[string][2]string{}
+	for name, p := range pairs {
+		if f := hashes[name]; f("GET/p/"+p[0]) == f("GET/p/"+p[1]) {
+			out[name] = p
+		}
+	}
+	return out
 }
 
 func cgGen(tier string, emit func(cgConfig, bool)) {
@@ -531,7 +660,7 @@ var c07Spec = fw.Spec[c07Case]{
 	Level:      "model_checking",
 	StateGraph: true,
 	Rule: "explicit-state search to fix-point per configuration (13 route tables x {HandleMethodNotAllowed} x {HandleFallbackRoute} x {StrictLastSlash} x capacities 0..3(4)): state = cache content in recency order with route and params per entry (verif hook); " +
-		"all histories of length <=2 (thorough 3) without state merging, then every reachable state x every request of the alphabet (13 / 16 requests: hits, misses, evictions, HEAD->GET, 405 probes, fallback, 404) executed on the real caching router via Match and ServeHTTP and compared with the non-caching twin; for capacity 2 also next to a sibling router built from the very same option values; for capacity 2 (thorough 1 and 3) the graph is explored again with the registration of the table's last route as one more action, enabled once at any point; plus pairs of request paths of every length 10..309 bytes that differ only in their last 1-3 bytes, requested alternately under four methods; non-trivial = newly reached distinct cache state",
+		"all histories of length <=2 (thorough 3) without state merging, then every reachable state x every request of the alphabet (13 / 16 requests: hits, misses, evictions, HEAD->GET, 405 probes, fallback, 404) executed on the real caching router via Match and ServeHTTP and compared with the non-caching twin; for capacity 2 also next to a sibling router built from the very same option values; for capacity 2 (thorough 1 and 3) the graph is explored again with the registration of the table's last route as one more action, enabled once at any point; plus plain / percent-encoded URL sequences under UseEncodedPath, matched and unmatched paths of 230..290 bytes with HandleMethodNotAllowed, pairs of cache keys that collide under six common 32-bit string hashes, and pairs of request paths of every length 10..309 bytes that differ only in their last 1-3 bytes, requested alternately under four methods; non-trivial = newly reached distinct cache state",
 	Assume: []string{
 		"canonical state = cache content only: tables and options are frozen after registration and contexts are reset per request (C10)",
 		"successor = replay of the shortest history on a fresh router plus one request",
